@@ -8,10 +8,10 @@ TARGETS = ['Props/C09.vo', 'Corr/XTree.vo']
 PROPS_FILE = 'Props/C09.v'
 RULE = ('pairs (file tree, runtime tree) over a 5-name space incl. look-alikes, <=4 nodes each (disjoint, nested, overlapping, deeper '
         'either side), both modes (several spellings), every runtime node as target x 3 tree options, without emdpath / with every '
-        'existing file path as emdpath / foreign root under an emdpath, root metadata sets over 3 names; plus sequences of 2-4 appends; '
+        'existing file path as emdpath / foreign root under an emdpath, root metadata sets over 3 names; plus sequences of 2-4 appends; plus '
+        'look-alike paths (sibling names a / ab / abc, a node named like its root) x every file path as emdpath; '
         'non-trivial = distinct cases in which the append returned normally and the file changed')
-MODELLED = ['payload templates with content tokens', 'h5py Group.__contains__ on absolute paths (always true for existing objects)',
-            'str.replace-based path arithmetic of write.py is modelled path-wise (names that are string prefixes of one another may differ)']
+MODELLED = ['payload templates with content tokens', 'group paths as lists of names (the source computes them as strings; look-alike paths are generated on purpose)']
 ASSUMPTIONS = ['valid, sibling-distinct names; runtime trees well formed (C12)']
 NAMES = ['a', 'b', 'c', 'ab', 'd']
 
@@ -77,6 +77,27 @@ def cases(seed, tier):
             steps.append(one_append())
         steps.append({'op': 'read', 'file': 0, 'tree': True, 'emdpath': 'r'})
         out.append({'tops': [ft, rt], 'steps': steps, 'kind': kind})
+    # look-alike paths: sibling names that are string prefixes of one another, a node named like its root
+    def nd(name, kids=(), cls='Node'):
+        return {'cls': cls, 'name': name, 'tok': T.fresh_tok() if cls != 'Node' else 0, 'rank': 1 if cls == 'Array' else 0, 'mds': [], 'kids': list(kids)}
+    for i in range(n // 12):
+        ft = {'cls': 'Root', 'name': 'r', 'tok': 0, 'rank': 0, 'mds': [], 'kids': [
+            nd('a', [nd('r', [nd('c')]), nd('ab')]), nd('ab', [nd('a')] if rng.random() < 0.5 else []), nd('abc', cls='Array')]}
+        rt = copy.deepcopy(ft)
+        for p_ in T.all_paths(rt):
+            s_ = T.spec_at(rt, p_)
+            if rng.random() < 0.5 and s_['cls'] in ('Node', 'Root'):
+                cand = [x for x in NAMES + ['r'] if x not in {k['name'] for k in s_['kids']}]
+                if cand:
+                    s_['kids'].append(nd(rng.choice(cand), cls=rng.choice(['Node', 'Array'])))
+        rpaths, fpaths = T.all_paths(rt), T.all_paths(ft)
+        steps = [{'op': 'save', 'file': 0, 'top': 0, 'tp': [], 'mode': 'w', 'tree': True}]
+        tp = rng.choice(rpaths[:6])
+        ep = rng.choice(fpaths)
+        steps.append({'op': 'save', 'file': 0, 'top': 1, 'tp': tp, 'mode': rng.choice(modes_a + modes_ao[:1]), 'tree': rng.choice([True, None, False]),
+                      'emdpath': '/'.join(['r'] + list(ep))})
+        steps.append({'op': 'read', 'file': 0, 'tree': True, 'emdpath': 'r'})
+        out.append({'tops': [ft, rt], 'steps': steps, 'kind': 'P'})
     return out
 
 
@@ -143,10 +164,22 @@ def expected_after(F, rt, st, rootname_file='r'):
             if target not in R:
                 return ('raise',)
             eff = target
-        elif target == tp or target == tp[:-1]:
+        elif tp in F:
+            if target == tp or target + (tp[-1],) in F:
+                eff = tp             # the target is the node, or holds a node of that name: merged at the node's own path
+            elif len(target) > len(tp) and target[:len(tp)] == tp:
+                # the target lies below the source node: the runtime node at the target's path is what gets appended
+                if target not in R:
+                    return ('raise',)
+                eff = target
+            else:
+                return ('raise',)    # the target is not on the source node's path: refused
+        elif tp[:-1] in F:
+            if target != tp[:-1]:
+                return ('raise',)    # a node one beyond the file can only go under its own parent
             eff = tp
         else:
-            return ('unknown',)
+            return ('raise',)
     else:
         eff = tp
     if eff and eff not in F and eff[:-1] not in F:
